@@ -137,6 +137,12 @@ func TestSweep(t *testing.T) {
 			for _, w := range [][4]int{{0, 3, 0, 3}, {1, 3, 0, 2}, {0, 2, 1, 4}, {2, 2, 0, 1}} {
 				Oracle.One(t, env, rec, "sweep", &Case{S: e.S.Name, D: e.D.Name, C: C, Src: Win{Kr: 3, A: w[0], B: w[1]}, Dst: Win{Kr: 4, A: w[2], B: w[3]}, Vals: vals, SameRoot: true})
 			}
+			// windows of windows: every way of reaching them, over longer parents
+			for nest := 1; nest <= 4; nest++ {
+				for _, w := range [][6]int{{16, 6, 10, 12, 0, 4}, {9, 2, 9, 14, 5, 12}, {20, 7, 11, 8, 1, 5}} {
+					Oracle.One(t, env, rec, "sweep", &Case{S: e.S.Name, D: e.D.Name, C: C, Src: Win{Kr: w[0], A: w[1], B: w[2]}, Dst: Win{Kr: w[3], A: w[4], B: w[5]}, Vals: vals, SameRoot: true, Nest: nest})
+				}
+			}
 		}
 	}
 	// results equal to what the destination already holds (zeros of both signs), for every instantiation
